@@ -432,7 +432,7 @@ def ret_assigns(tr, body):
                 rv = s["rv"]
                 if rv["k"] == "use":
                     sites = _value_sites(tr, body, rv["op"], (i, j))
-                    if sites is not None and len(sites) > 1:
+                    if sites is not None and (len(sites) > 1 or ((rv["op"].get("move") or rv["op"].get("copy") or {}).get("p") and len(sites) == 1)):
                         # `let r = if .. { a } else { b }; r`: one entry per place where the value is produced, so that
                         # guards are looked for where they apply
                         out += sites
@@ -452,9 +452,24 @@ def _value_sites(tr, body, op, loc, depth=0):
     """[(bb, idx, node)] of the whole-local definitions a copied/moved local's value comes from, following
     local-to-local copies; None when the operand is not a plain local or a definition is partial"""
     pl = op.get("copy") or op.get("move")
-    if pl is None or pl["p"]:
+    if pl is None:
         return None
     g = graph(body)
+    if pl["p"]:
+        # `(x as Variant).0` where every definition of x is `Variant(y)`: the value is y (an inlined helper's
+        # `return v` arrives as Poll::Ready(v) / Ok(v) and is unpacked again)
+        p_ = pl["p"]
+        if len(p_) == 2 and isinstance(p_[0], dict) and "downcast" in p_[0] and isinstance(p_[1], dict) and p_[1].get("f") == 0 and depth < 6:
+            ds = g.reaching(pl["l"], loc)
+            if ds and all(d[3] == "assign" and not d[4] and d[5]["k"] == "agg" and d[5].get("variant") == p_[0].get("v") and len(d[5]["ops"]) == 1 for d in ds):
+                out = []
+                for d in ds:
+                    sub = _value_sites(tr, body, d[5]["ops"][0], (d[1], d[2]), depth + 1)
+                    if sub is None:
+                        return None
+                    out += sub
+                return out
+        return None
     out = []
     for d in g.reaching(pl["l"], loc):
         (_l, bb, idx, kind, proj, data, _n) = d
